@@ -384,6 +384,61 @@ def r01_6(ck, F):
                       {"stash_store": rc.loc(sbb, si), "entry_point": entry, "variant": var})
 
 
+def r01_8(ck, F):
+    ck.rule("R01.8", "frame flags travel with the frame in the receiver: every Receiving::Chunks { completed } is built "
+            "from the `last` flag of the frame (or stash, or recv_data parameter) whose payload is being handed on, "
+            "Receiving::Restarted { buf, last } stores buf and last of one and the same frame, and every call of "
+            "recv_data passes (buf, first, last) of one frame — with first = true exactly for the stashed start of a "
+            "message",
+            "a single-frame message following a cancelled chunk stream never completes (completed: false for the "
+            "stashed frame), or a multi-frame message following it is discarded (first / last swapped on replay)", floor=6)
+    RCV = "chmux::receiver::Receiving"
+    n = 0
+    for fn in ("chmux::receiver::Receiver::recv_chunk", "chmux::receiver::Receiver::recv_any", "chmux::receiver::Receiver::recv_data"):
+        try:
+            b = F.main_body(fn)
+        except Exception:
+            b = F.body(fn)
+        short = fn.split("::")[-1]
+        k = 0
+        for bb, i, rv in b.aggregates(RCV):
+            f = dict(zip(rv["fields"], rv["ops"]))
+            if rv["variant"] == "Chunks":
+                e = mir.strip_casts(b.expr(f["completed"]))
+                ok = mir.last_field(e) == "last" or (e[0] == "var" and e[1] == "last" and not e[2])
+                ck.expect(ok, f"{short}#Chunks{k}-completed", f"completed = {mir.show(e)[-40:]}",
+                          f"{fn}: Receiving::Chunks is built with completed = {mir.show(e)[:80]}, not the `last` flag of the "
+                          f"frame being handed on", b.loc(bb, i))
+                k += 1
+                n += 1
+            elif rv["variant"] == "Restarted":
+                eb, el = b.expr(f["buf"]), b.expr(f["last"])
+                sb, sl = mir.show(eb), mir.show(el)
+                ok = sb.endswith(".buf") and sl.endswith(".last") and sb[:-4] == sl[:-5]
+                ck.expect(ok, f"{short}#Restarted-same-frame", "buf and last of the same frame are stashed",
+                          f"{fn}: Receiving::Restarted stores buf = {sb[-50:]} with last = {sl[-50:]}", b.loc(bb, i))
+                n += 1
+        for k, (bb, t) in enumerate(b.calls("chmux::receiver::Receiver::recv_data")):
+            eb, ef, el = (mir.strip_casts(b.expr(a)) for a in t["a"][1:4])
+            sb, sf, sl = mir.show(eb), mir.show(ef), mir.show(el)
+            base = sb[:-4] if sb.endswith(".buf") else None
+            stash = "@Restarted" in sb
+            ok_last = base is not None and sl == base + ".last"
+            ok_first = base is not None and (sf == base + ".first" or (stash and const_value(ef) == 1))
+            ck.expect(ok_last and ok_first, f"{short}#recv_data{k}-flags",
+                      f"recv_data({sb[-30:]}, {sf[-30:]}, {sl[-30:]})",
+                      f"{fn}: recv_data is called with buf = {sb[-60:]}, first = {sf[-60:]}, last = {sl[-60:]}: the flags are not "
+                      f"those of the frame whose payload is passed" + (" (a stashed frame is the start of a message: first must be true)" if stash else ""),
+                      b.loc(bb))
+            n += 1
+    ck.expect(n >= 6, "frame-flags#sites", f"{n} sites", f"only {n} flag hand-over sites found in chmux/receiver.rs", None)
+
+
+def r01_7(ck, F):
+    import cancel
+    cancel.rule(ck, F, "R01.7", only=("chmux::receiver::", "chmux::sender::", "chmux::credit::"), floor=4)
+
+
 def run(ck, F):
-    for r in (r01_1, r01_2, r01_3, r01_4, r01_5, r01_5b, r01_6):
+    for r in (r01_1, r01_2, r01_3, r01_4, r01_5, r01_5b, r01_6, r01_7, r01_8):
         ck.run_rule(r)
